@@ -206,3 +206,12 @@ package module
 //@   trusted
 //@   pure
 //@   ensures t == cvs_ts(v)
+
+// C30: the 20 id bytes of a peer identity are a function of the (immutable) identity value
+//@ property C30
+//@ smt all (declare-fun pid_bytes (Iface) BSeq)
+//@ func (id PeerID) Bytes() (bs)
+//@   iface
+//@   trusted
+//@   pure
+//@   ensures len(bs) == 20 && seq(bs) == pid_bytes(id)
